@@ -199,6 +199,10 @@ class Gen(object):
                 self.raw.append(col)
             else:
                 self.add("READ", self.fresh("r"), [("InFileName", fn), ("InFieldName", col)], "raw")
+                if rnd.random() < 0.4:
+                    # the same column also read under its own name: the field name is then both something a READ renamed and a result
+                    self.cmds.append(("READ", col, [("InFileName", fn), ("InFieldName", col)], "v2in"))
+                    self.raw.append(col)
         for r in list(self.raw):
             self.add("CVTTOFUZZY", self.fresh("f"), [("InFieldName", r), ("TrueThreshold", str(rnd.randint(3, 9))),
                                                      ("FalseThreshold", str(rnd.randint(-9, 2)))], "fz")
